@@ -26,6 +26,8 @@ func ruleC03(c *Check) {
 	c.depositPayer("C03.3")
 	c.custodyErrorsChecked("C03.5")
 	c.availabilityPairs("C03.4")
+	c.paramSetExact("C03.4")
+	c.fractionValidators("C03.2")
 	c.paramGettersExact("C03.4", "KeyArbitrationTimeLimit", "KeyComplaintRetrospect", "KeySlashFraction")
 }
 
